@@ -54,6 +54,7 @@ HISTORIES = [
                                                                       ("tsevent-during", 1, 1), ("request", None), ("request", 0)]),
     ("SIGINT between requests", "sigint", [("sigint",), ("request", 1), ("request", 0.5), ("arrive", "a"), ("request", 0.5), ("request", 0)]),
     ("SIGINT, then a blocking request for a key", "sigint", [("sigint",), ("sigint",), ("request", None), ("request", None), ("arrive", "up"), ("request", None), ("request", 0.25)]),
+    ("keys typed before the context is entered", None, [("typed-ahead", "ab"), ("request", 1), ("request", 1), ("request", 0)]),
     ("everything at once", None, [("arrive", "ab"), ("event", 0, 1), ("tsevent", 0, 1), ("sched", 0.0, 1), ("unget", "up"), ("drain",)]),
 ]
 
@@ -87,6 +88,12 @@ def run_history(it, title, threshold, steps):
         kw["paste_threshold"] = threshold
     inp = it.new("input", "Input", **kw)
     thr = inp.fields.get("paste_threshold")
+    typed_ahead = None
+    if steps and steps[0][0] == "typed-ahead":
+        # bytes that are already waiting in the terminal's input queue when the context is entered
+        typed_ahead = KEYS[steps[0][1]]
+        osm.data.setdefault(0, []).append(typed_ahead[0])
+        steps = steps[1:]
     r = it.callm(inp, "__enter__")
     if r[0] != "ok":
         raise AnalysisError("Input.__enter__ gives %s" % (r,))
@@ -194,6 +201,14 @@ def run_history(it, title, threshold, steps):
         return left
 
     outstanding_before, due_before = [], False
+    if typed_ahead is not None:
+        expected_keys.extend(typed_ahead[1])
+        arrivals.append(typed_ahead[1])
+        trail.append("%d byte(s) were typed before the context was entered" % len(typed_ahead[0]))
+        if not osm.data.get(0):
+            return ("H1-every-byte-returned-once-in-order", hist(), "entering the context discarded the %d byte(s) waiting in the terminal's input queue "
+                    "(tty attributes set with TCSAFLUSH instead of TCSANOW)" % len(typed_ahead[0]))
+        pending_os = unread()
     for st in steps:
         if st[0] == "sigint":
             # a SIGINT between requests: the interpreter runs the installed handler and the C-level handler writes the
